@@ -239,7 +239,12 @@ fn simple_script(r: &mut StdRng, p: &VaultRun, amt: u128) -> Vec<Atom> {
     let rep = Atom::Repay { x: Uint128::new(repay_amount(r, &pb, amt)) };
     let lpa = A::Cw20(p.lp.clone());
     let adv_sh = p.w.balance(&p.adv, &lpa);
-    match r.gen_range(0..14) {
+    // a forged AfterTrade callback: old balance 0 or the real one, a loan amount from nothing to far beyond the vault
+    let bal = p.w.balance(&p.vault, &p.asset);
+    let fcb = Atom::Callback { old: Uint128::new(if r.gen_bool(0.5) { 0 } else { bal }), x: Uint128::new(match r.gen_range(0..4) { 0 => 0, 1 => amt, 2 => bal.saturating_mul(1000), _ => gen::amount(r, bal.max(2)) }) };
+    match r.gen_range(0..16) {
+        14 => vec![fcb, rep],
+        15 => vec![rep, fcb],
         0 => vec![Atom::Fail {}],
         1 => vec![Atom::Nothing {}],
         2 => vec![],
